@@ -1,0 +1,88 @@
+//go:build verif
+
+// Contracts for the deductive verifier in /verif (gvc). Comment-only: compiled only under the build
+// tag `verif`, contains no code.
+package annotations
+
+// ---- fact wrappers: GetAnnotations is the identity pointer conversion, CreateEmpty allocates an empty fact ----
+//@ func AnnotationReaderFact.GetAnnotations
+//@   props C06 C10
+//@   nilrecv
+//@   ensures result == cast(f, *PackageAnnotations)
+//@   assigns nothing
+//@ func ImplementsCheckerFact.GetAnnotations
+//@   props C06 C10
+//@   nilrecv
+//@   ensures result == cast(f, *PackageAnnotations)
+//@   assigns nothing
+//@ func ImmutableCheckerFact.GetAnnotations
+//@   props C06 C10
+//@   nilrecv
+//@   ensures result == cast(f, *PackageAnnotations)
+//@   assigns nothing
+//@ func ConstructorCheckerFact.GetAnnotations
+//@   props C06 C10
+//@   nilrecv
+//@   ensures result == cast(f, *PackageAnnotations)
+//@   assigns nothing
+//@ func TestOnlyCheckerFact.GetAnnotations
+//@   props C06 C10
+//@   nilrecv
+//@   ensures result == cast(f, *PackageAnnotations)
+//@   assigns nothing
+//@ func PackageOnlyCheckerFact.GetAnnotations
+//@   props C06 C10
+//@   nilrecv
+//@   ensures result == cast(f, *PackageAnnotations)
+//@   assigns nothing
+
+//@ func AnnotationReaderFact.CreateEmpty
+//@   props C06 C10
+//@   nilrecv
+//@   fresh
+//@   ensures result != nil
+//@   assigns nothing
+//@ func ImplementsCheckerFact.CreateEmpty
+//@   props C06 C10
+//@   nilrecv
+//@   fresh
+//@   ensures result != nil
+//@   assigns nothing
+//@ func ImmutableCheckerFact.CreateEmpty
+//@   props C06 C10
+//@   nilrecv
+//@   fresh
+//@   ensures result != nil
+//@   assigns nothing
+//@ func ConstructorCheckerFact.CreateEmpty
+//@   props C06 C10
+//@   nilrecv
+//@   fresh
+//@   ensures result != nil
+//@   assigns nothing
+//@ func TestOnlyCheckerFact.CreateEmpty
+//@   props C06 C10
+//@   nilrecv
+//@   fresh
+//@   ensures result != nil
+//@   assigns nothing
+//@ func PackageOnlyCheckerFact.CreateEmpty
+//@   props C06 C10
+//@   nilrecv
+//@   fresh
+//@   ensures result != nil
+//@   assigns nothing
+
+// The interface methods, as refined by the six implementations above and below.
+//@ func AnnotationWrapper.GetAnnotations
+//@   trusted
+//@   ensures result == cast(recv, *PackageAnnotations)
+//@   assigns nothing
+// createdTag: the dynamic type of the facts an analyzer's wrapper type creates (one per wrapper type; inside the
+// generic index builders the wrapper is the zero value of the type parameter)
+//@ ghost func createdTag(w AnnotationWrapper) typetag
+//@ func AnnotationWrapper.CreateEmpty
+//@   trusted
+//@   fresh
+//@   ensures result != nil && dyntype(result) == createdTag(recv)
+//@   assigns nothing
